@@ -1,5 +1,6 @@
 import Tally.Drv.Common
 import Tally.Model.Scope
+import Tally.Model.ScopeCard
 import Tally.Spec.C04
 import Tally.Spec.C10
 /-!
@@ -7,7 +8,7 @@ Driver for the sequential scope suites (C04, C05, C10, C11 and the sequential pa
 See the module doc of `Tally.Model.Scope`; line formats are documented in harness/suite_scope.go.
 -/
 namespace Tally.Drv.Scope
-open Tally Tally.Scope Tally.KeyGen Tally.Sanitize
+open Tally Tally.Scope Tally.KeyGen Tally.Sanitize Tally.ScopeCard
 
 def parseKV (s : String) : Option (Bytes × Bytes) :=
   match s.splitOn ":" with
@@ -69,6 +70,7 @@ structure DState where
   closedIds : List Nat
   metricIds : List (Nat × (Bytes × TagMap))   -- metric id ↦ (full name, tags) by derivation
   rootSep : Bytes
+  card : Option TagMap := none   -- tags of the library's own cardinality gauges; none = omitted
 
 def init : DState := { st := none, derivs := [], closedIds := [], metricIds := [], rootSep := [] }
 
@@ -121,15 +123,31 @@ def scopeReply (d : DState) (st' : St) (out : Out) (obsId obsEvents : String)
 def handle (d : DState) (toks : List String) : DState × String :=
   let (req, obs) := splitObserved toks
   match req, obs with
-  | ["root", kind, closable, shards, san, pfx, sep, tags, defb], [] =>
-    match parseSan san, ofHex pfx, ofHex sep, parseMap tags, shards.toNat?, parseSpec defb with
-    | some san, some pfx, some sep, some tags, some shards, some defb =>
+  | "root" :: kind :: closable :: shards :: san :: pfx :: sep :: tags :: defb :: more, oallocs =>
+    -- optional tenth field: `omit` or the CardinalityMetricsTags map (then the allocations made by the
+    -- registry's constructor are observed: one token after `=>`)
+    let cardTok := more.headD "omit"
+    if more.length > 1 || (more.isEmpty && !oallocs.isEmpty) || (!more.isEmpty && oallocs.length != 1) then (d, "bad-op shape") else
+    match parseSan san, ofHex pfx, ofHex sep, parseMap tags, shards.toNat?, parseSpec defb,
+        (if cardTok == "omit" then some none else (parseMap cardTok).map some) with
+    | some san, some pfx, some sep, some tags, some shards, some defb, some cardUser =>
       let k := if kind == "plain" then RKind.plain else if kind == "cached" then .cached else .none
       let cfg : Cfg := { san := san, kind := k, closable := closable == "1", shards := shards, defaultBuckets := defb }
       let st := mkRoot cfg pfx sep tags
       let rootS := st.scopes.headD { pfx := [], tags := [], closed := false, isRoot := true, metrics := [] }
-      ({ st := some st, derivs := [(0, (rootS.pfx, rootS.tags, true))], closedIds := [], metricIds := [], rootSep := st.sep }, "ok")
-    | _, _, _, _, _, _ => (d, "bad-op parse")
+      let card := cardUser.map (cardTags cfg)
+      let internal : List (Nat × (Bytes × TagMap)) := match card with
+        | none => []
+        | some t => [counterCardinalityName, gaugeCardinalityName, histogramCardinalityName, scopeCardinalityName].mapIdx
+            fun i n => (1000000 + i, (sanName cfg n, t))
+      let d' : DState := { st := some st, derivs := [(0, (rootS.pfx, rootS.tags, true))], closedIds := [],
+                           metricIds := internal, rootSep := st.sep, card := card }
+      match oallocs with
+      | [] => (d', "ok")
+      | o :: _ =>
+        let exp := showEvents (rootAllocs card cfg)
+        if exp == o then (d', "ok") else (d', s!"differ {exp}")
+    | _, _, _, _, _, _, _ => (d, "bad-op parse")
   | ["exec", errIn, elapsed], [fCalls, errOut, lats, succ, er] =>
     let pe (x : String) : Option (Option Nat) := if x == "nil" then some none else x.toNat?.map some
     match pe errIn, parseInt elapsed, fCalls.toNat?, pe errOut, intList lats, parseInt succ, parseInt er with
@@ -223,7 +241,7 @@ def handle (d : DState) (toks : List String) : DState × String :=
             else if showEvents evs == oevs then (d', "ok") else (d', s!"differ {showEvents evs}")
           | _ => (d, "bad-op model-out")
     | ["report"], [oevs] =>
-      let (st', out) := step st .report
+      let (st', out) := stepC d.card st .report
       match out with
       | .events evs =>
         let d' := { d with st := some st' }
@@ -234,7 +252,7 @@ def handle (d : DState) (toks : List String) : DState × String :=
       match s.toNat? with
       | none => (d, "bad-op parse")
       | some s =>
-        let (st', out) := step st (.close s)
+        let (st', out) := stepC d.card st (.close s)
         match out with
         | .events evs =>
           let d' := { d with st := some st', closedIds := if s == 0 then (d.derivs.map (·.1)) else s :: d.closedIds }
